@@ -89,6 +89,15 @@ PROPS = {
             enum("fast", ["props/C15_enum.cpp", "shims/bf_table.c"], qs=0, ts=16, lib="fast", cxxflags=["-DVP_FAST", "-O2"], cflags=["-O2"]),
         ],
     ),
+    "C12": dict(
+        level="exploration",
+        exhaustive_possible=False,
+        rule="cases are (role, mode, endpoint kinds, octet string) tuples: payload round trip/structure/bound/concatenation, raw decoder input with a per-call reference at frame "
+             "boundaries, garbage prefix + delimiter + 3 frames, error injection at every position; non-trivial = payload containing END or ESC, or a garbage prefix that leaves "
+             "the decoder in a non-initial state (ends in ESC, invalid escape, no start octet); distinct by string",
+        assumptions=COMMON_ASSUME + ["resynchronisation oracle: delivered frames are attributed by the source offset at which the decode call ends (DESIGN section 3)"],
+        targets=[enum("enum", ["props/C12_enum.cpp"], qs=12, ts=16)],
+    ),
 }
 
 NOTE_COMMON = ("trusted: clang/ASan/UBSan, the harness and its reference model; the search is bounded (see evidence: tier bounds and counts); "
@@ -132,6 +141,14 @@ MANIFEST_TEXT = {
         level_text="All 126 accessors, the 7 swaps and the 8 range predicates are tabulated behind uniform function pointers (compiled with and without UFW_USE_BUILTIN_SWAP) and compared "
                    "with octet arithmetic: stored octets, untouched neighbours (canary prefix + ASan-exact block end), returned pointer, loaded value incl. sign extension and float bit identity. "
                    "Exhaustive for widths 16/24 (and 32 in the thorough tier); wider widths by lanes x octet values, single bits, edges and random values.",
+        level_note=NOTE_COMMON,
+    ),
+    "C12": dict(
+        engine="enum",
+        technique="bounded-exhaustive strings over the SLIP control alphabet in four roles (round trip, raw input vs per-call reference, resynchronisation, fault injection at every position) + random payloads",
+        level_text="Every string up to length 8 (thorough 10) over {END, ESC, ESC_END, ESC_ESC, other} is used as payload, raw decoder input and garbage prefix in both modes with "
+                   "octet- and chunk-style endpoints; the oracle is structural (delimiter only as delimiter, escapes well-formed, length bound), an inverse (round trip, concatenation), a "
+                   "reference decoder at frame boundaries, and a metamorphic relation for injected source/sink errors. Random 1 KiB payloads extend the alphabet.",
         level_note=NOTE_COMMON,
     ),
 }
